@@ -114,6 +114,8 @@ def audit_seq(seq, flags, fails, counts, settings):
                 return
         bx, by = I.snapshot(x), I.snapshot(y)
         m = METHOD[st["op"]]
+        if st["op"] == "index":
+            m = "Food.__getitem__:" + st.get("kt", "int") + "-index"
         try:
             with quiet():
                 z = I.apply(x, st, y)
@@ -160,6 +162,9 @@ def audit_seq(seq, flags, fails, counts, settings):
         if z is None:
             return
         counts["accepted"] += 1
+        # (h) indexing with any integer key (Python int or numpy integer) is get_month
+        if st["op"] == "index":
+            index_vs_month(x, z, I.make_key(x, st)[1], m, i, fail, counts)
         # (a) combined list agrees with the labels
         if list(z.units) != labels(z):
             fail("C11:units-list-stale@" + m, f"step {i} {st['op']}: units {z.units} but labels {labels(z)}")
@@ -180,6 +185,27 @@ def audit_seq(seq, flags, fails, counts, settings):
         x = z
         if not np.all(np.isfinite(np.array(x.kcals, dtype=float))):
             return
+
+
+def index_vs_month(x, z, k, m, i, fail, counts):
+    counts["index_cases"] += 1
+    try:
+        with quiet():
+            g = x.get_month(k)
+    except BaseException as e:
+        fail("C11:index-differs-from-get_month@" + m, f"step {i}: x[{k}] accepted but get_month({k}) raised {classify(e)}")
+        return
+    if z.is_list_monthly() or labels(z) != labels(g) or list(z.units) != list(g.units) or \
+            I.snapshot(z)[:3] != I.snapshot(g)[:3]:
+        fail("C11:index-differs-from-get_month@" + m,
+             f"step {i}: x[{k}] is labelled {labels(z)} / {z.units}, get_month({k}) is labelled {labels(g)} "
+             f"(series labelled {labels(x)})")
+        return
+    try:
+        with quiet():
+            z + g
+    except BaseException as e:
+        fail("C11:index-differs-from-get_month@" + m, f"step {i}: x[{k}] + get_month({k}) raised {classify(e)}")
 
 
 def audit_ctor_result(a, x, fails, counts):
@@ -265,7 +291,7 @@ def run(payload):
     settings = payload["settings"]
     fails = []
     counts = {k: 0 for k in ("steps", "accepted", "ctor_cases", "ctor_rejected", "unit_check_cases",
-                             "unit_mismatch_cases", "ratio_side_cases", "wf_in_cases", "label_table_cases", "pred_pairs")}
+                             "unit_mismatch_cases", "ratio_side_cases", "wf_in_cases", "label_table_cases", "pred_pairs", "index_cases")}
     if "replay" in payload:
         c = payload["replay"]
         if c["type"] == "seq":
@@ -281,6 +307,22 @@ def run(payload):
         audit_seq(seq, FLAGS[j % 4], fails, counts, settings)
     grid = [-1.5, 0.0, 2.0] if payload.get("grid") == "quick" else [-1.5, 0.0, 0.5, 2.0]
     audit_preds(grid, fails, counts, settings)
+    # directed index cases: every key kind x every position (negative too), directly and after a slice
+    for kt in ("int", "int64", "int32", "0d", "arange", "argmin"):
+        for n in (1, 3, 5):
+            for k in range(-n, n):
+                for pre in ([], [{"op": "slice", "a": 1, "b": n}] if n > 1 else []):
+                    kk = k
+                    if pre:
+                        m = n - 1
+                        if not (-m <= k < m):
+                            continue
+                    a = {"k": {"t": "arr", "v": [float((7 * j) % 5 - 2) + j / 64 for j in range(n)]},
+                         "f": {"t": "arr", "v": [float(j) for j in range(n)]}, "p": {"t": "arr", "v": [1.5] * n},
+                         "lk": "billion kcals each month", "lf": "thousand tons each month",
+                         "lp": "thousand tons each month"}
+                    seq = {"init": a, "steps": pre + [{"op": "index", "i": kk, "kt": kt}], "seed": 1, "getters": False}
+                    audit_seq(seq, FLAGS[(n + k) % 4], fails, counts, settings)
     # directed constructor cases: every combination of nutrient kinds x label suffix
     for mon in (True, False):
         for fk, pk in itertools.product(("int", "arr", "list") if mon else ("int", "float"), repeat=2):
